@@ -78,4 +78,28 @@ Theorem reachable_take_unblocks m a0 progs sched n x q t cid k vs ab rm :
 Proof.
   intros s Hn. apply (take_unblocks m s n); [exact Hn|]. exact (cap_reachable sem sem_slf dv m a0 progs sched n Hn).
 Qed.
+(* ---- the head is a stop message (a self-consuming method won the race): the play returns, the receiver goes away,
+        and a caller still blocked on the full queue is released with a panic - it neither hangs nor vanishes ---- *)
+Lemma upd_same {X} (l : list X) i x y : nth_error l i = Some y -> nth_error (upd l i x) i = Some x.
+Proof. revert i. induction l as [|h l IH]; intros [|i] H; cbn in *; try discriminate; auto. Qed.
+
+Theorem stop_releases_blocked m (s : st) c0 q a t cid k vs ab rm :
+  alive s = true -> busy s = None -> queue s = MStop c0 :: q -> actor s = Some a -> r_stop_first m = true ->
+  at_send s t cid k vs ab -> meth m k = Some rm -> rm_loud_send rm = true ->
+  exists s1 s2 cl, step m s Ac = Some s1 /\ alive s1 = false /\ exited s1 = Some Stopped /\ moved s1 = S (moved s)
+    /\ step m s1 (Cl t) = Some s2
+    /\ nth_error (clients s2) t = Some cl /\ c_pc cl = Dead /\ In (cid, Panicked) (c_rets cl)
+    /\ lost s2 = lost s ++ [cid] /\ enq s2 = enq s.
+Proof.
+  intros Al B Q Ha SF (c & Hc & Hpc) Hm Hl.
+  cbn [Actor.step]. unfold step_actor. unfold alive in Al.
+  destruct (exited s) eqn:E; [discriminate|]. rewrite B, Q, Ha, SF.
+  eexists. eexists. exists (die c cid). split; [reflexivity|].
+  split; [reflexivity|]. split; [reflexivity|]. split; [reflexivity|].
+  unfold step_client. cbn. rewrite Hc, Hpc, Hm, Hl. cbn.
+  split; [reflexivity|]. cbn.
+  split; [exact (upd_same _ _ _ _ Hc)|].
+  split; [reflexivity|]. split; [cbn; apply in_or_app; right; left; reflexivity|].
+  split; reflexivity.
+Qed.
 End Unblock.
